@@ -127,6 +127,27 @@ def extra_run0(man, tier, seed):
             failures.append({'site': site, 'case': il, 'spec_case': sl, 'impl': a, 'expected': b, 'detail': detail,
                              'observed': 'nan' if 'nan' in detail.split(' vs ')[0] or a == 'xNaN' else ('panic' if a == 'PANIC' else 'value'),
                              'args': vals})
+    # lnmv_gamma(p, a) = p(p-1)/4 ln pi + sum_{j=1..p} lnGamma(a + (1-j)/2) and ln_binom(n, k) = lnGamma(n+1) - lnGamma(k+1)
+    # - lnGamma(n-k+1) (real arguments: the Gamma-Poisson predictive uses a generalised coefficient with k > n), python lgamma
+    mg_lines, mg_want = [], []
+    for _ in range(n // 8 + 40):
+        pdim = rng.choice([1, 2, 3, 4, 5, 6, 8, 12])
+        a = (pdim - 1) / 2.0 + math.exp(rng.uniform(-3, 4))
+        mg_lines.append(f'lnmv_gamma - {pdim} {enc(a)}')
+        mg_want.append(pdim * (pdim - 1) / 4.0 * math.log(math.pi) + math.fsum(math.lgamma(a + (1 - j) / 2.0) for j in range(1, pdim + 1)))
+        nn = math.exp(rng.uniform(-2, 5)) if rng.random() < 0.5 else float(rng.randint(0, 60))
+        kk = float(rng.randint(0, 40)) if rng.random() < 0.7 else nn * rng.random()
+        if nn - kk + 1.0 > 0 and nn + 1.0 > 0:
+            mg_lines.append(f'ln_binom - {enc((nn, kk))}')
+            mg_want.append(math.lgamma(nn + 1.0) - math.lgamma(kk + 1.0) - math.lgamma(nn - kk + 1.0))
+    mg_impl, _ = run_pair(mg_lines, want_model=False)
+    for l, a, w in zip(mg_lines, mg_impl, mg_want):
+        if a in ('NOOP',) or a.startswith('BAD'):
+            continue
+        v = tok_to_float(a) if a.startswith('x') else float('nan')
+        if not (abs(v - w) <= 1e-9 * max(1.0, abs(w)) + 1e-10):
+            failures.append({'site': l.split()[0], 'case': l, 'impl': a, 'expected': repr(w), 'detail': f'{v!r} vs definition {w!r}',
+                             'observed': 'panic' if a == 'PANIC' else ('nan' if v != v else 'value'), 'args': []})
     # log_product against the exactly rounded sum of logs (python fsum): running products that overflow, underflow or pass
     # through the subnormal range must be flushed into the log accumulator without loss
     lp_lines, lp_want = [], []
